@@ -81,7 +81,7 @@ def run(ctx):
   ctx.trusted = ["Coq 8.16.1 kernel + vm_compute", "hand-written model Model/ITML.v tied by the binary64 re-run",
                  "solver locals read with sys.setprofile (no source change)",
                  "KKT => unique optimum of the LogDet problem (strict convexity) is not mechanised"]
-  ok = ctx.build_property()
+  ok = ctx.build_property(gen_needed=['Src_itml'])
   terms, recs = [], []
   n = 96 if thorough else 24
   for i in range(n):
